@@ -337,7 +337,10 @@ def check_items(col, crate, sfx):
     impl = _impl_bodies(crate, "Combinator", "SegtreeItem")
     if "__impl__" not in impl:
         raise Anchor("no SegtreeItem impl for Combinator")
-    gen = ["U", "V"]
+    # the two component types are whatever the two fields of the pair are declared as (`Combinator<U, V>(U, V)`)
+    gen = [str(f_["ty"]) for f_ in util.fields_of(util.need_adt(crate, "Combinator"))[:2]]
+    if len(gen) != 2 or gen[0] == gen[1]:
+        raise Anchor("Combinator is expected to be a pair of two different component types")
     for m in sorted(k for k in impl if k != "__impl__"):
         b = impl[m]
         I = A(b)
@@ -385,7 +388,7 @@ def check_items(col, crate, sfx):
             ret = util.ret_term(st)
             v = ("param", 1, I.names.get(1))
             ok = len(evs) == 2 and all(e.args == (v,) for e in evs) and ret[0] == "agg" and ret[2] == (evs[0].res, evs[1].res)
-            ok = ok and [(e.fn.get("self_ty") or (e.fn.get("args") or ["?"])[0]) for e in evs] == ["U", "V"]
+            ok = ok and [(e.fn.get("self_ty") or (e.fn.get("args") or ["?"])[0]) for e in evs] == gen
             key = "%s|both-from-v" % fk(b)
             if ok:
                 col.ok("R8" + sfx, b.loc(), key, "Combinator(U::from(v), V::from(v))")
